@@ -552,7 +552,7 @@ func ruleR13_2(c *Check) {
 		ok := len(call.Args) == 2 && w.fieldOf(call.Args[0]) == w.Field("y.ValueStruct.Meta") && w.fieldOf(call.Args[1]) == w.Field("y.ValueStruct.ExpiresAt")
 		r.Check(ok, ak, "isDeletedOrExpired on the entry's meta and expiry", s, "arguments are "+short(w, s))
 	}
-	r.Exists(n == 1, ak, "shared predicate used", nil, "subcompact does not call isDeletedOrExpired")
+	r.Exists(n >= 1, ak, "shared predicate used", nil, "subcompact does not call isDeletedOrExpired")
 }
 
 func ruleR13_3(c *Check) {
@@ -780,7 +780,7 @@ func ruleR14_3(c *Check) {
 		v, ok := w.constInt(call.Args[1])
 		r.Check(ok && v == 0 && w.isCallTo(call.Args[0], pk), as, "split right boundary at version 0 of the user key", s, "boundary is "+short(w, s))
 	}
-	r.Exists(n == 1, as, "split boundary site", nil, "addSplits no longer builds its boundary with KeyWithTs")
+	r.Exists(n >= 1, as, "split boundary site", nil, "addSplits no longer builds its boundary with KeyWithTs")
 	g := w.F("badger.getKeyRange")
 	var lit *ast.CompositeLit
 	g.walk(func(x ast.Node) bool {
@@ -848,7 +848,7 @@ func ruleR14_4(c *Check) {
 	for _, name := range []string{"badger.levelHandler.replaceTables", "badger.levelHandler.sortTables"} {
 		f := w.F(name)
 		ss := f.Sites(sortSel)
-		r.Exists(len(ss) == 1, f, "sorts its tables", nil, "no sort.Slice over levelHandler.tables")
+		r.Exists(len(ss) >= 1, f, "sorts its tables", nil, "no sort.Slice over levelHandler.tables")
 		for _, s := range ss {
 			r.Check(cmpBySmallest(f, s), f, "sorted by smallest key", s, "comparison is not CompareKeys(Smallest, Smallest) < 0")
 		}
